@@ -14,7 +14,7 @@ RULE = ('one case = one scripted peer audited under 7 option sets (colour, -n, -
         '(refused, silent, closed after banner, garbage, truncated KEXINIT, wrong first packet, bad block size), and policy audits (-P) of passing and failing peers.  Oracle: status == 3/2/0 by the '
         'worst finding level visible in the report (algorithm notes by tag, general/security lines by colour); broken handshakes: status not in {0,2,3} and no algorithm lines/lists; policy: status 0 <=> passed, 3 <=> failed.  '
         'A case is non-trivial when at least one option set produced a report/verdict that was compared with the status; distinct = distinct peer specifications')
-REQUIRED = {'gss_only_failure': 4, 'empty_entry_before_failure': 4, 'broken_after_rated_banner': 9, 'builtin_policy_runs': 10, 'outdated_builtin_policy_runs': 4, 'status_checks': 200, 'expect3': 10, 'expect2': 5, 'expect0': 3, 'broken_handshakes': 10, 'policy_runs': 10}
+REQUIRED = {'banners_with_two_findings': 2, 'gss_only_failure': 4, 'empty_entry_before_failure': 4, 'broken_after_rated_banner': 9, 'builtin_policy_runs': 10, 'outdated_builtin_policy_runs': 4, 'status_checks': 200, 'expect3': 10, 'expect2': 5, 'expect0': 3, 'broken_handshakes': 10, 'policy_runs': 10}
 ASSUMPTIONS = ['findings are algorithm notes plus failure/warning coloured lines of the general and security sections; (nfo), (rec) and (fin) lines are presentation, not findings',
                'levels of untagged (gen)/(sec) lines are only observable in colour renderings; the expected status of all option sets of a peer is derived from its colour rendering']
 MANIFEST = {
@@ -54,6 +54,9 @@ def cases(tier, seed):
         cs.append({'kind': 'ssh1', 'cmask': cm, 'amask': am})
     for i in range(3 if tier == 'quick' else 12):
         cs.append({'kind': 'ssh199', 'seed': rng.randrange(1 << 30), 'clean': i % 2 == 0})
+    # two banner findings of different levels at once (SSH-1.99: failure; non-printable character: warning), with failure-free algorithms: the status follows the worse one
+    for i in range(2 if tier == 'quick' else 8):
+        cs.append({'kind': 'ssh199', 'seed': rng.randrange(1 << 30), 'clean': i % 2 == 0, 'np': True})
     for i in range(3 if tier == 'quick' else 12):
         cs.append({'kind': 'nonascii-banner', 'seed': rng.randrange(1 << 30)})
     for b in BROKEN:
@@ -220,9 +223,11 @@ def run_ssh199(c):
         lists = {cat: rng.sample([x for x in cls[cat]['clean'] if not gen.is_terrapin_shape(x) and not x.startswith('gss-')], 1) for cat in ('kex', 'key', 'enc', 'mac')}
     else:
         lists = {cat: rng.sample([x for x in cls[cat]['warn'] if not x.startswith('gss-')] or cls[cat]['clean'], 1) for cat in ('kex', 'key', 'enc', 'mac')}
-    script = {'banner': 'SSH-1.99-OpenSSH_3.%d' % rng.randint(0, 9), 'kex': audit.sym_kex(lists['kex'], lists['key'], lists['enc'], lists['mac']), 'hostkeys': {}, 'gex': None}
+    script = {'banner': 'SSH-1.99-OpenSSH_3.%d' % rng.randint(0, 9) + (' build\x07tag' if c.get('np') else ''), 'kex': audit.sym_kex(lists['kex'], lists['key'], lists['enc'], lists['mac']), 'hostkeys': {}, 'gex': None}
     viol, counters = [], {}
-    check_optsets(script, viol, counters, tag=':ssh1.99')
+    if c.get('np'):
+        counters['banners_with_two_findings'] = 1
+    check_optsets(script, viol, counters, tag=':ssh1.99' + ('+nonprintable' if c.get('np') else ''))
     return viol, counters
 
 
